@@ -448,18 +448,32 @@ func runC15(r *ev.Run, thorough bool) int {
 			r.Sample(map[string]interface{}{"algo": tasks[i].Algo, "case": tasks[i].Cases[len(tasks[i].Cases)/3]})
 		}
 	})
+	// E3: the transmissions to two (thorough: also three) relays fail at the same moment - every schedule of
+	// Core.forward's sender threads up to the preemption bound: no report says the bundle was forwarded
+	sbound, sbudget := 2, 1200
+	if thorough {
+		sbound, sbudget = 3, 60000
+	}
+	sexecs := nhSchedRun(r, "C15", nhConcArg{Algo: "epidemic", Mode: "failures", Peers: 2, Report: true}, sbound, sbudget)
+	if thorough {
+		sexecs += nhSchedRun(r, "C15", nhConcArg{Algo: "epidemic", Mode: "failures", Peers: 3, Report: true}, 2, sbudget)
+	}
 	r.Add("scenarios", int64(len(cases)*len(algos)))
 	r.Add("reports_checked", int64(reports))
 	if reports == 0 {
 		r.Violation("C15/vacuous", "none", "no status report was ever emitted", nil)
 	}
 	return r.Finish(map[string]interface{}{
-		"evaluations":         len(cases) * len(algos),
+		"evaluations":         len(cases)*len(algos) + sexecs,
+		"schedules":           sexecs,
 		"distinct_nontrivial": len(sigs),
 		"rule":                fmt.Sprintf("%d scenarios on a live routing.Core (algorithms %v): all 16 request-flag combinations x time flag x whole/fragment x report-to {remote, this node, local agent endpoint, local agent endpoint under another node name, dtn:none} x outcome {delivered to an agent, addressed to the node without agent, forwarded, all sends failed, lifetime expired by age, hop limit exceeded, unknown block with each of the 8 report/delete/remove flag subsets}, plus administrative-record payloads; every administrative bundle the node emits (seen at the mock convergence senders) is decoded and matched against the reference function (flags, outcome) -> allowed (status, reason) set, addressing, referenced ID incl. fragment part, time presence; distinct_nontrivial = distinct (outcome, request flags, number of reports) signatures", len(cases), algos),
 	}, []string{"the statement is a safety claim ('only if'): a missing report is not a violation", strings.TrimSpace("one long-lived node per batch of 120 scenarios")})
 }
 
 func replayC15(kind string, c json.RawMessage) (string, bool) {
+	if kind == "sched" {
+		return c08ReplaySched(c)
+	}
 	return "C15 cases are enumerated deterministically: re-run the check (the violating scenario is described in the artefact)", false
 }
